@@ -8,7 +8,7 @@
 From Coq Require Import List ZArith Bool.
 From PV Require Import lib.Sx lib.Str model.TextNodes model.TextWrite model.TextRead model.TextStyle.
 From PV Require Import spec.SpecTextXml spec.SpecTextStyle proofs.TextStyleFacts.
-From PV Require Import proofs.TextPayloadFacts proofs.TextRoundtripFacts.
+From PV Require Import proofs.TextPayloadFacts proofs.TextRoundtripFacts proofs.TextAttrFacts proofs.TextAttrRoundFacts.
 Import ListNotations.
 Open Scope Z_scope.
 
@@ -90,6 +90,21 @@ Theorem C11_sami_roundtrip_flags : forall ns, nodes_ok plain_style ns = true -> 
             balanced (flat_map (sami_nodes true) t) = true.
 Proof. exact sami_roundtrip_flags. Qed.
 Print Assumptions C11_sami_roundtrip_flags.
+
+(* wave 7: the same for style dictionaries WITH a colour (any colour string over XML Char, written through quoteattr) *)
+Theorem C11_dfxp_roundtrip_flags_color : forall region ns, nodes_ok color_style ns = true -> flat_balanced ns = true ->
+  exists t, content_parse (dfxp_payload (extra_of region) ns) = Some t /\
+            ok_flags m_i ns (flat_map (dfxp_nodes true) t) = true /\
+            balanced (flat_map (dfxp_nodes true) t) = true.
+Proof. exact dfxp_roundtrip_flags_c. Qed.
+Print Assumptions C11_dfxp_roundtrip_flags_color.
+
+Theorem C11_legacy_roundtrip_flags_color : forall ns, nodes_ok color_style ns = true -> flat_balanced ns = true ->
+  exists t, content_parse (legacy_payload ns) = Some t /\
+            ok_flags m_i ns (flat_map (dfxp_nodes true) t) = true /\
+            balanced (flat_map (dfxp_nodes true) t) = true.
+Proof. exact legacy_roundtrip_flags_c. Qed.
+Print Assumptions C11_legacy_roundtrip_flags_color.
 
 (* ---- non-vacuity ---- *)
 Example C11_example_flat : flat_balanced ex_nodes = true.
